@@ -465,9 +465,16 @@ impl Gen {
             props.retain(|p| !matches!(p, Prop::CorrelationData(_)));
         }
         let correlate = if p.near_mps { None } else { correlate };
+        // one publish in forty is refused locally by its own payload closure (it fails, or claims
+        // far more bytes than any buffer holds): the application carries on with the connection
+        let payload = match rng.below(80) {
+            0 => PayloadSpec::Fail,
+            1 => PayloadSpec::Lie { claim: 10_000_000 },
+            _ => PayloadSpec::Fill { len, tag: self.tag, ascii },
+        };
         PubSpec {
             topic,
-            payload: PayloadSpec::Fill { len, tag: self.tag, ascii },
+            payload,
             qos,
             retain: rng.chance(1, 5),
             props,
